@@ -1,6 +1,7 @@
 package simnet
 
 import (
+	"container/heap"
 	"context"
 	"fmt"
 	"net"
@@ -72,6 +73,82 @@ type PacketNet struct {
 	// ServerIP replaces an unspecified bind address (mieru binds the wildcard).
 	ServerIP net.IP
 	QueueCap int
+	// Latency is a one-way delay added to every datagram. Datagrams with equal
+	// total delay are delivered in the order they were sent (see schedule).
+	Latency time.Duration
+
+	pending  delayHeap
+	pendSeq  uint64
+	pendRun  bool
+	pendWake chan struct{}
+}
+
+// delayed deliveries are executed by one goroutine in (due time, submission)
+// order, so that a uniform latency keeps the network FIFO; time.AfterFunc
+// would let equal-delay datagrams overtake each other.
+type delayedItem struct {
+	due time.Time
+	seq uint64
+	fn  func()
+}
+
+type delayHeap []delayedItem
+
+func (h delayHeap) Len() int { return len(h) }
+func (h delayHeap) Less(i, j int) bool {
+	if h[i].due.Equal(h[j].due) {
+		return h[i].seq < h[j].seq
+	}
+	return h[i].due.Before(h[j].due)
+}
+func (h delayHeap) Swap(i, j int) { h[i], h[j] = h[j], h[i] }
+func (h *delayHeap) Push(x any)   { *h = append(*h, x.(delayedItem)) }
+func (h *delayHeap) Pop() any {
+	old := *h
+	it := old[len(old)-1]
+	*h = old[:len(old)-1]
+	return it
+}
+
+// scheduleLocked runs fn (with n.mu held) once `delay` has passed. Caller holds n.mu.
+func (n *PacketNet) scheduleLocked(delay time.Duration, fn func()) {
+	n.pendSeq++
+	heap.Push(&n.pending, delayedItem{due: time.Now().Add(delay), seq: n.pendSeq, fn: fn})
+	if n.pendWake == nil {
+		n.pendWake = make(chan struct{}, 1)
+	}
+	if !n.pendRun {
+		n.pendRun = true
+		go n.runPending()
+	} else {
+		select {
+		case n.pendWake <- struct{}{}:
+		default:
+		}
+	}
+}
+
+func (n *PacketNet) runPending() {
+	for {
+		n.mu.Lock()
+		for n.pending.Len() > 0 && !time.Now().Before(n.pending[0].due) {
+			it := heap.Pop(&n.pending).(delayedItem)
+			it.fn()
+		}
+		if n.pending.Len() == 0 {
+			n.pendRun = false
+			n.mu.Unlock()
+			return
+		}
+		wait := time.Until(n.pending[0].due)
+		n.mu.Unlock()
+		t := time.NewTimer(wait)
+		select {
+		case <-t.C:
+		case <-n.pendWake:
+			t.Stop()
+		}
+	}
 }
 
 func NewPacketNet() *PacketNet {
